@@ -30,7 +30,7 @@ P = importlib.import_module("dask.array.percentile")      # (dask.array.percenti
 
 PROPERTY = "C32"
 LEVEL = "other"
-BUDGET = {"quick": 400, "thorough": 2400}      # caps, not targets
+BUDGET = {"quick": 400, "thorough": 2400}      # caps, not targets: quick ~75 s, thorough ~9.5 min of wall with 5 jobs on a quiet machine
 CHUNK_PATHS = 100
 EXPLANATION = (
     "Solver-driven enumeration through dask's public API, every path replayed natively. "
@@ -89,8 +89,8 @@ BOUNDS = {
                         "final q in {[0,10,35,50,50,80,100], [5,95]} x 5 methods",
                   nanpercentile="shapes (3,) (2,2) (1,3) (2,3), <= 2 chunks per axis (every chunking), 3 NaN/value patterns, every axis (-1, 0, .., ndim-1); (2,2,2) with <= 2 chunks on the "
                                 "last two axes, 2 patterns; q in {50, [0,25,100], [30.,30.]} x 5 methods, keepdims for linear / lower; +-inf patterns with lower/higher/nearest on (3,) (2,2)"),
-    "thorough": dict(percentile="float over {0,1,3}: length 1..3 with <= 3 chunks x 8 q specifications; length 4 with <= 3 chunks x 3 q; length 1..3 with <= 2 chunks x the other 8 q; "
-                                "length 5 over {0,1} with <= 2 chunks; length 2..3 in exactly 4 chunks; 4 values {0,1,2,5} length 3; int64 and +-inf: length 1..3, <= 3 chunks, 4 q; "
+    "thorough": dict(percentile="float over {0,1,3}: length 1..3 with <= 3 chunks x 7 q specifications; length 4 with <= 3 chunks x 3 q; length 1..3 with <= 2 chunks x the other 8 q; "
+                                "length 5 over {0,1} with <= 2 chunks; length 2..3 in exactly 4 chunks; 4 values {0,1,2,5} length 3; int64 and +-inf: length 1..3, <= 3 chunks, 3 q; "
                                 "long arrays n = 5..30 (3 layouts, 2 patterns, 8 q) and int64 long arrays n in {5,8,13,21}",
                      merge="2 summaries over 5 grids (incl. [0,25,75,100], [0,100]), bases {0,1,4}, up to 3 step patterns, N in {1,2,3} / 0, up to 5 final q vectors; 3 summaries over reduced tables",
                      nanpercentile="additionally shapes (4,) (3,2) (2,4) (3,3), tuple axis (0,1), 4 patterns, 4..6 q specifications; <= 3 chunks per axis for (3,) (2,2) (2,3); EVERY value "
@@ -545,17 +545,17 @@ def obligations(tier):
             mk_nanpercentile("inf", [(3,), (2, 2)], 2, npat=2, methods=PICKING, patterns=INF_PATTERNS),
         ]
     return [
-        mk_percentile("float", F3, "f8", [(1, 1, 3), (2, 1, 3), (3, 1, 3)], (0, 1, 2, 3, 4, 6, 7, 9), METHODS),
+        mk_percentile("float", F3, "f8", [(1, 1, 3), (2, 1, 3), (3, 1, 3)], (0, 1, 2, 4, 6, 7, 9), METHODS),
         mk_percentile("float,n=4", F3, "f8", [(4, 1, 3)], (2, 6, 9), METHODS),
         mk_percentile("float,more q", F3, "f8", [(1, 1, 2), (2, 1, 2), (3, 1, 2)], (5, 8, 10, 11, 12, 13, 14, 15), METHODS),
         mk_percentile("float,n=5", (0.0, 1.0), "f8", [(5, 1, 2)], (1, 2, 6, 14), METHODS),
         mk_percentile("float,4 chunks", F3, "f8", [(2, 4, 4), (3, 4, 4)], (2, 6, 9), METHODS),
-        mk_percentile("float,4 values", (0.0, 1.0, 2.0, 5.0), "f8", [(3, 1, 2)], (1, 2, 6, 9), METHODS),
-        mk_percentile("int", I3, "i8", [(1, 1, 3), (2, 1, 3), (3, 1, 3)], (1, 2, 6, 8), METHODS),
-        mk_percentile("inf", INF3, "f8", [(1, 1, 3), (2, 1, 3), (3, 1, 3)], (1, 2, 6, 9), PICKING),
+        mk_percentile("float,4 values", (0.0, 1.0, 2.0, 5.0), "f8", [(3, 1, 2)], (1, 3, 6, 9), METHODS),
+        mk_percentile("int", I3, "i8", [(1, 1, 3), (2, 1, 3), (3, 1, 3)], (2, 6, 8), METHODS),
+        mk_percentile("inf", INF3, "f8", [(1, 1, 3), (2, 1, 3), (3, 1, 3)], (1, 6, 9), PICKING),
         mk_percentile("long", None, "f8", None, (1, 2, 5, 6, 7, 12, 13, 14), METHODS, lay=halves(tuple(range(5, 31)))),
         mk_percentile("long int", None, "i8", None, (1, 6, 7, 14), METHODS, lay=halves((5, 8, 13, 21))),
-        mk_merge(2, ((0, 1, 2, 3, 4), (0, 1), 2, (1, 3)), ((0, 1, 2, 3, 4), (0, 1, 4), 2, (0, 2)), 3),
+        mk_merge(2, ((0, 1, 2, 3, 4), (0, 1), 2, (1, 3)), ((0, 1, 2, 3, 4), (0, 4), 2, (0, 2)), 3),
         mk_merge(2, ((0, 1, 3), (0, 4), 3, (2,)), ((1, 2, 3), (0, 1), 3, (1, 3)), 5),
         mk_merge(3, ((0, 1, 3), (0, 1), 1, (1, 3)), ((0, 3), (0, 1), 2, (0, 2)), 2),
         mk_nanpercentile("nan", [(3,), (4,), (2, 2), (1, 3), (2, 3), (3, 2), (2, 4), (3, 3)], 2, npat=4, nq=4, tuple_axes=True),
